@@ -103,6 +103,8 @@ M_OF_Lookup(t) == OF_Lookup(t) /\ UNCHANGED vbudget
 M_OF_Id(t) == OF_Id(t) /\ UNCHANGED vbudget
 M_OF_Insert(t) == OF_Insert(t) /\ UNCHANGED vbudget
 M_CloseFile(t) == CloseFile(t) /\ UNCHANGED vbudget
+M_CF_Acquire(t) == CF_Acquire(t) /\ UNCHANGED vbudget
+M_CF_Remove(t) == CF_Remove(t) /\ UNCHANGED vbudget
 M_ReadFile(t) == ReadFile(t) /\ UNCHANGED vbudget
 M_GetFileSize(t) == GetFileSize(t) /\ UNCHANGED vbudget
 M_SetFilePointer(t) == SetFilePointer(t) /\ UNCHANGED vbudget
@@ -150,6 +152,8 @@ MCNext ==
     \/ \E t \in Threads : M_OF_Id(t)
     \/ \E t \in Threads : M_OF_Insert(t)
     \/ \E t \in Threads : M_CloseFile(t)
+    \/ \E t \in Threads : M_CF_Acquire(t)
+    \/ \E t \in Threads : M_CF_Remove(t)
     \/ \E t \in Threads : M_ReadFile(t)
     \/ \E t \in Threads : M_GetFileSize(t)
     \/ \E t \in Threads : M_SetFilePointer(t)
